@@ -28,7 +28,9 @@ TRUSTED = ["Coq 8.16.1 kernel (coqc); no axioms (Print Assumptions: closed under
            "CPython typing / inspect / get_type_hints / MRO are represented by the class table, not modelled"]
 ASSUME = ["single inheritance; a generic class's first base is a generic alias or Generic[...]; registered collection classes "
           "have one type parameter and annotated, lambda-free methods", "lambdas supplied as strings or ast objects"]
-RULE = ("random class models (inheritance depth <= 3, 1-2 type parameters renamed and reordered along the chain, fixed "
+RULE = ("random class models (inheritance depth <= 3, 1-2 type parameters renamed and reordered along the chain, type variables "
+        "at nesting depth 0-3 in return annotations, in base-class arguments and in an Iterable base, classes named like typing "
+        "exports (Container, Sequence, Collection, Reversible), fixed "
         "non-generic subclasses, Iterable subclasses with extra parameters, a registered custom collection, unannotated "
         "methods) and well-typed expressions generated with their expected type (method chains, Select/SelectMany/Where/"
         "First/Count/len/subscript at depth <= 3, comparisons, and/or, int/float arithmetic, dict fields, conditionals); "
@@ -85,29 +87,43 @@ class Spec:
         self.add("E1", [], None, {"val": ("p", "float"), "name": ("p", "str")})
         n = r.choice([1, 2])
         bp = r.sample(tvs, n)
-        bm = {"first": ("v", bp[0]), "items": ("it", ("v", bp[0])), "raw": None}
+        # user classes may be named like exports of `typing` (they must not be taken for them)
+        BASE = self.BASE = r.choice(["Base", "Base", "Container", "Sequence"])
+        MID = self.MID = r.choice(["Mid", "Mid", "Collection", "Reversible"])
+        nest = lambda t, k: t if k == 0 else ("it", nest(t, k - 1))  # noqa
+        bm = {"first": ("v", bp[0]), "items": ("it", ("v", bp[0])), "raw": None,
+              # type variables at nesting depth 2 and 3 inside the annotation
+              "layers": nest(("v", bp[0]), 2), "deep": nest(("v", bp[-1]), 3)}
         if n == 2:
             bm["second"] = ("v", bp[1])
             bm["pairs"] = ("it", ("v", bp[1]))
-        self.add("Base", bp, None, bm)
+        self.add(BASE, bp, None, bm)
         # Mid: own parameters (renamed / reordered), base arguments drawn from them and from concrete types
         mp = r.sample(tvs, r.choice([1, 2]))
         margs = [r.choice([("v", p) for p in mp] + [("p", "int"), E[0]]) for _ in bp]
-        self.add("Mid", mp, ("c", "Base", margs), {"mine": ("v", mp[0]), "mids": ("it", ("v", mp[-1]))})
+        self.add(MID, mp, ("c", BASE, margs), {"mine": ("v", mp[0]), "mids": ("it", ("v", mp[-1])),
+                                               "grid": nest(("v", mp[-1]), 2)})
         # Leaf: depth 3, fixed or generic
         if r.random() < 0.5:
-            self.add("Leaf", [], ("c", "Mid", [r.choice([("p", "float"), E[1], ("p", "str")]) for _ in mp]), {"leaf": ("p", "int")})
+            self.add("Leaf", [], ("c", MID, [r.choice([("p", "float"), E[1], ("p", "str")]) for _ in mp]), {"leaf": ("p", "int")})
         else:
             lp = [r.choice(tvs)]
-            self.add("Leaf", lp, ("c", "Mid", [r.choice([("v", lp[0]), ("p", "int")]) for _ in mp]), {"leaf": ("v", lp[0])})
-        self.add("Fixed", [], ("c", "Base", [r.choice([("p", "int"), E[0]]) for _ in bp]), {})
+            self.add("Leaf", lp, ("c", MID, [r.choice([("v", lp[0]), ("p", "int")]) for _ in mp]), {"leaf": ("v", lp[0])})
+        self.add("Fixed", [], ("c", BASE, [r.choice([("p", "int"), E[0], nest(E[1], 2)]) for _ in bp]), {})
+        # base-class arguments with the subclass's variable at depth 2-3; an Iterable subclass nested 3 deep
+        gp = [r.choice(tvs)]
+        self.add("Grouped", gp, ("c", BASE, [nest(("v", gp[0]), r.choice([2, 3]))] + [("p", "int")] * (n - 1)),
+                 {"one": nest(("v", gp[0]), 1)})
+        kp = [r.choice(tvs)]
+        self.add("Blocks", kp, nest(("v", kp[0]), 3), {"size": ("p", "int")})
         ip = r.sample(tvs, r.choice([1, 2]))
         self.add("MyIter", ip, ("it", ("v", ip[-1])), {"tag": ("p", "int"), "head": ("v", ip[-1])})
         self.coll_methods = {"MyFirst": ("v", "M"), "MyCount": ("p", "int")}
         inst = lambda c: ("c", c, [r.choice([("p", "int"), ("p", "float"), E[0], E[1]]) for _ in self.classes[c]["params"]])  # noqa
         ev = {"n": ("p", "int"), "x": ("p", "float"), "ok": ("p", "bool"), "raw": None,
-              "base": inst("Base"), "mid": inst("Mid"), "leaf": inst("Leaf"), "fixed": ("c", "Fixed", []),
-              "it": inst("MyIter"), "e0s": ("it", E[0]), "e1s": ("it", E[1]), "mids": ("it", inst("Mid")),
+              "base": inst(BASE), "mid": inst(MID), "leaf": inst("Leaf"), "fixed": ("c", "Fixed", []),
+              "grouped": inst("Grouped"), "blocks": inst("Blocks"), "nested": nest(r.choice(E + [("p", "int")]), 2),
+              "it": inst("MyIter"), "e0s": ("it", E[0]), "e1s": ("it", E[1]), "mids": ("it", inst(MID)),
               "e0": E[0]}
         self.add("Ev", [], None, ev)
 
@@ -174,7 +190,7 @@ class G:
     def value(self, v, t, d):
         """an expression starting from [v : t]; -> (ast, type)"""
         r = self.r
-        for _ in range(r.randrange(1, 4)):
+        for _ in range(r.randrange(1, 5)):
             if t[0] == "c" and t[1] in self.s.classes:
                 el = self.s.elem(t)
                 ms = self.s.methods_of(t)
@@ -182,7 +198,7 @@ class G:
                     v, t = self.coll(v, t, el, d)
                     continue
                 m = r.choice(ms)
-                if t[2] or t[1] in ("Fixed", "Leaf", "MyIter"):
+                if t[2] or t[1] in ("Fixed", "Leaf", "MyIter", "Grouped", "Blocks"):
                     self.interesting = True
                 v, t = call(A(v, m), []), self.s.method(t, m)
             elif t[0] == "it":
@@ -215,6 +231,8 @@ class G:
             b, bt = self.value(N(nv), el, d + 1)
             return call(A(v, "Where"), [lam(nv, self.boolean(b, bt))]), ("it", el)
         # SelectMany: the body must be iterable
+        if self.s.elem(el) is not None and r.random() < 0.5:
+            return call(A(v, "SelectMany"), [lam(nv, N(nv))]), ("it", self.s.elem(el))       # flatten one level
         b, bt = self.value(N(nv), el, d + 1)
         be = self.s.elem(bt) if bt[0] in ("c", "it") else None
         if be is None:
